@@ -37,7 +37,7 @@ func runFocusedHTTP(t *testing.T, id, rule string, o HistOpts, quick, thorough i
 
 func TestC02HTTP(t *testing.T) {
 	runFocusedHTTP(t, "C02", "account reads with volumes, volumes listing, aggregated balances and transactions after every step and in a final sweep equal the fold of the committed postings; failed and dry-run requests move nothing; non-trivial = >= 2 commits and >= 1 failed write; distinct = by operation history",
-		HistOpts{Features: GenFeatures, Steps: 20, Scripts: true, Reverts: true, Metadata: true, Reads: true, FinalReads: true, SecondLedger: true}, 120, 400,
+		HistOpts{Features: GenFeatures, Steps: 20, Scripts: true, Reverts: true, Metadata: true, Reads: true, FinalReads: true, SecondLedger: true, Bulks: true}, 120, 400,
 		func(s *HistorySummary) bool { return s.Commits >= 2 && s.Failures >= 1 })
 }
 
@@ -67,7 +67,7 @@ func TestC17HTTP(t *testing.T) {
 
 func TestC08HTTP(t *testing.T) {
 	runFocusedHTTP(t, "C08", "every accepted write request appends exactly one log (read back through GET logs), refused and dry-run requests none; the journal listed through the API replayed into a fresh model equals the ledger's reads; non-trivial = a revert, a metadata delete and >= 3 commits; distinct = by operation history",
-		HistOpts{Features: GenFeatures, Steps: 20, Scripts: true, Reverts: true, Metadata: true, Reads: true, FinalReads: true}, 100, 300,
+		HistOpts{Features: GenFeatures, Steps: 20, Scripts: true, Reverts: true, Metadata: true, Reads: true, FinalReads: true, Bulks: true}, 100, 300,
 		func(s *HistorySummary) bool { return s.Reverts >= 1 && s.MetaOps >= 1 && s.Commits >= 3 })
 }
 
@@ -124,6 +124,11 @@ func TestC21HTTP(t *testing.T) {
 		for i := 0; i < 6; i++ {
 			res, pages := w.checkPagination(rt, l)
 			st.Case(fmt.Sprint("http", i, res, pages)+strings.Join(l.Ops, "\n"), pages >= 3, nil, "resource:"+res, "via-http")
+		}
+		for i := 0; i < 3; i++ {
+			if w.windowedVolumesWalk(rt, l) {
+				st.Class("windowed-volumes-walk")
+			}
 		}
 		st.Add("api_calls", w.APICalls)
 		st.Add("completed_checks_via_http", 1)
